@@ -1,7 +1,7 @@
 (* C06: what is wrong on the pinned tree (model with strict = false /
    c_fixcard = false), as closed witness theorems. *)
 From Coq Require Import ZArith List Bool String.
-From Tally Require Import Base.Obs Gen.Params Model.Utf8 Model.Sanitize Model.SanScope.
+From Tally Require Import Base.ObsCore Gen.Params Model.Utf8 Model.Sanitize Model.SanScope.
 Import ListNotations.
 Open Scope Z_scope.
 
